@@ -57,6 +57,17 @@ CHECKS = {
                  "they advertise. numpy's vectorised evaluation is trusted.",
         "note": NOTE,
     },
+    "C13": {
+        "technique": "who-may-write enumeration of value-object state; provenance/ownership abstract interpretation over every mutation sink "
+                     "of the library with call-site obligations (fresh vs. operand-owned, two container levels); must-return-self of copy hooks; "
+                     "argument-order check of __reduce__",
+        "level": "Holds for all operation sequences because it is decided from which code may write operand state: state fields are stored "
+                 "only by constructors, and every one of the library's mutation sinks (stores, deletes, augmented assignments, container "
+                 "mutators, Fraction/FractionValue part-mutators, including those reached through parameter-mutating callees) acts on a "
+                 "fresh object and never on a value object's stored container or fractional parts; copy hooks return the identical object; "
+                 "pickle argument order matches the constructor.",
+        "note": NOTE,
+    },
     "C14": {
         "technique": "who-may-write enumeration of registry mutation sites via def-use terms; check-before-write and dominance on CFGs; "
                      "exhaustive table lint over the interpreted registration log",
